@@ -411,15 +411,76 @@ func c05cWhere(where string) string {
 	return ""
 }
 
-// TestVerifC05ConfKeys: deterministic key-spelling table for toCamelCase-canonicalised loading.
+// TestVerifC05ConfKeys: deterministic, seed-independent key-spelling family. The tag key (or the
+// bare field name) K is loaded from documents that spell it as K, snake_case(K) and K with the initial
+// letter's case flipped. K ranges over every initial letter A..Z / a..z, single letters, every letter
+// as the initial of a later word (maxZone <- max_zone), digits inside names and acronyms.
 func TestVerifC05ConfKeys(t *testing.T) {
-	m := vk.New(t, "C05", "fixed table: struct key spelled K in the tag, document key spelled as K, snake_case(K), K with the initial letter flipped, at top level, in nested structs and inside slices/maps of structs")
+	m := vk.New(t, "C05", "fixed family: struct key K (tag key or bare field name) x document key spelled K / snake_case(K) / K with flipped initial; K = every letter A..Z and a..z as initial (Zone, zone), single letters, every letter as initial of a later word (maxZone <- max_zone, zkZhosts), digits inside names (http2Port, a0Z9z), acronyms (HTTPPort, ID: same + flipped initial only - their snake_case is ambiguous); required and optional fields; at top level, nested, in slices/maps of structs, embedded and optional-embedded structs; JSON and YAML")
 	defer m.Done()
-	keys := []string{"a", "A", "port", "Port", "userName", "UserName", "maxConnIdle", "dbUrl", "x1", "httpPort2", "Id"}
-	idx := 0
-	for _, k := range keys {
-		variants := map[string]string{}
-		sn := strings.Builder{}
+	type keyCase struct {
+		k       string
+		full    bool // all placements (else: top + nested + untagged)
+		noSnake bool
+	}
+	var keys []keyCase
+	for _, k := range []string{"a", "A", "port", "Port", "userName", "UserName", "maxConnIdle", "dbUrl", "x1", "httpPort2", "Id", "Zone", "zkHosts", "aZ"} {
+		keys = append(keys, keyCase{k: k, full: true})
+	}
+	for c := 'A'; c <= 'Z'; c++ {
+		U, L := string(c), string(c+32)
+		for _, k := range []string{U, L, U + "one", L + "one", "max" + U + "one", L + "k" + U + "osts", U + "k" + U + "osts", "x" + L + U + L + "q", "p" + U + "a" + U + "z"} {
+			keys = append(keys, keyCase{k: k})
+		}
+	}
+	for _, k := range []string{"http2Port", "x1y", "port8080", "a1B2", "a0Z9z", "z9A0a", "v2", "Z2", "a9"} {
+		keys = append(keys, keyCase{k: k})
+	}
+	for _, k := range []string{"HTTPPort", "ID", "userID", "dbURL", "ZK", "AZ", "ZKHosts", "aZZ", "AAa", "zZZz"} {
+		keys = append(keys, keyCase{k: k, noSnake: true})
+	}
+	val := func() any { return g.LeafDoc(g.Int16, "-7", false) }
+	type place struct {
+		name string
+		full bool
+		mk   func(k, dk string) (*g.Type, map[string]any)
+	}
+	leaf := func(k string, o g.Opts) *g.Type { return g.StructOf(g.F("V", k, g.L(g.Int16), o)) }
+	places := []place{
+		{"top", false, func(k, dk string) (*g.Type, map[string]any) { return leaf(k, g.Opts{}), map[string]any{dk: val()} }},
+		{"top-optional", false, func(k, dk string) (*g.Type, map[string]any) {
+			return leaf(k, g.Opts{Optional: true}), map[string]any{dk: val()}
+		}},
+		{"top-default", false, func(k, dk string) (*g.Type, map[string]any) {
+			return leaf(k, g.Opts{HasDefault: true, Default: "3"}), map[string]any{dk: val()}
+		}},
+		{"untagged", false, func(k, dk string) (*g.Type, map[string]any) {
+			if k[0] < 'A' || k[0] > 'Z' {
+				return nil, nil // a bare field name must be exported
+			}
+			return g.StructOf(&g.Field{Name: k, T: g.L(g.Int16), Untagged: true}), map[string]any{dk: val()}
+		}},
+		{"nested", false, func(k, dk string) (*g.Type, map[string]any) {
+			return g.StructOf(g.F("N", k, leaf(k, g.Opts{}), g.Opts{})), map[string]any{dk: map[string]any{dk: val()}}
+		}},
+		{"slice", true, func(k, dk string) (*g.Type, map[string]any) {
+			return g.StructOf(g.F("N", "items", g.SliceOf(leaf(k, g.Opts{})), g.Opts{})), map[string]any{"items": []any{map[string]any{dk: val()}}}
+		}},
+		{"embedded", true, func(k, dk string) (*g.Type, map[string]any) {
+			return g.StructOf(&g.Field{Name: "E", T: leaf(k, g.Opts{}), Anonymous: true, Untagged: true}), map[string]any{dk: val()}
+		}},
+		{"embedded-optional", true, func(k, dk string) (*g.Type, map[string]any) {
+			return g.StructOf(&g.Field{Name: "E", T: leaf(k, g.Opts{}), Anonymous: true, O: g.Opts{Optional: true}}), map[string]any{dk: val()}
+		}},
+		{"embedded-optional-pointer", true, func(k, dk string) (*g.Type, map[string]any) {
+			return g.StructOf(&g.Field{Name: "E", T: g.PtrTo(leaf(k, g.Opts{})), Anonymous: true, O: g.Opts{Optional: true}}), map[string]any{dk: val()}
+		}},
+		{"map", true, func(k, dk string) (*g.Type, map[string]any) {
+			return g.StructOf(g.F("N", "byname", g.MapOf(leaf(k, g.Opts{})), g.Opts{})), map[string]any{"byname": map[string]any{"k": map[string]any{dk: val()}}}
+		}},
+	}
+	snake := func(k string) string {
+		var sn strings.Builder
 		for i, c := range k {
 			if c >= 'A' && c <= 'Z' {
 				if i > 0 {
@@ -430,63 +491,59 @@ func TestVerifC05ConfKeys(t *testing.T) {
 				sn.WriteRune(c)
 			}
 		}
-		variants["same"] = k
-		variants["snake"] = sn.String()
-		if k[0] >= 'a' && k[0] <= 'z' {
-			variants["flip"] = string(k[0]-32) + k[1:]
-		} else {
-			variants["flip"] = string(k[0]+32) + k[1:]
+		return sn.String()
+	}
+	flip := func(k string) string {
+		switch {
+		case k[0] >= 'a' && k[0] <= 'z':
+			return string(k[0]-32) + k[1:]
+		case k[0] >= 'A' && k[0] <= 'Z':
+			return string(k[0]+32) + k[1:]
 		}
-		leaf := func() *g.Type { return g.StructOf(g.F("V", k, g.L(g.Int16), g.Opts{})) }
-		shapes := map[string]func(dk string) (*g.Type, map[string]any){
-			"top": func(dk string) (*g.Type, map[string]any) {
-				return leaf(), map[string]any{dk: g.LeafDoc(g.Int16, "-7", false)}
-			},
-			"nested": func(dk string) (*g.Type, map[string]any) {
-				return g.StructOf(g.F("N", "inner", leaf(), g.Opts{})), map[string]any{"inner": map[string]any{dk: g.LeafDoc(g.Int16, "-7", false)}}
-			},
-			"slice": func(dk string) (*g.Type, map[string]any) {
-				return g.StructOf(g.F("N", "items", g.SliceOf(leaf()), g.Opts{})), map[string]any{"items": []any{map[string]any{dk: g.LeafDoc(g.Int16, "-7", false)}}}
-			},
-			"embedded": func(dk string) (*g.Type, map[string]any) {
-				return g.StructOf(&g.Field{Name: "E", T: leaf(), Anonymous: true, Untagged: true}), map[string]any{dk: g.LeafDoc(g.Int16, "-7", false)}
-			},
-			"embedded-optional": func(dk string) (*g.Type, map[string]any) {
-				return g.StructOf(&g.Field{Name: "E", T: leaf(), Anonymous: true, O: g.Opts{Optional: true}}), map[string]any{dk: g.LeafDoc(g.Int16, "-7", false)}
-			},
-			"embedded-optional-pointer": func(dk string) (*g.Type, map[string]any) {
-				return g.StructOf(&g.Field{Name: "E", T: g.PtrTo(leaf()), Anonymous: true, O: g.Opts{Optional: true}}), map[string]any{dk: g.LeafDoc(g.Int16, "-7", false)}
-			},
-			"map": func(dk string) (*g.Type, map[string]any) {
-				return g.StructOf(g.F("N", "byname", g.MapOf(leaf()), g.Opts{})), map[string]any{"byname": map[string]any{"k": map[string]any{dk: g.LeafDoc(g.Int16, "-7", false)}}}
-			},
+		return k
+	}
+	idx := 0
+	for _, kc := range keys {
+		k := kc.k
+		type variant struct{ mode, dk string }
+		vs := []variant{{"same", k}, {"flip", flip(k)}}
+		if !kc.noSnake {
+			vs = append(vs, variant{"snake", snake(k)})
 		}
-		for where, mk := range shapes {
-			for mode, dk := range variants {
+		for _, pl := range places {
+			if pl.full && !kc.full {
+				continue
+			}
+			for _, v := range vs {
 				for _, yaml := range []bool{false, true} {
 					idx++
 					if !m.Only(idx) {
 						continue
 					}
-					root, doc := mk(dk)
+					root, doc := pl.mk(k, v.dk)
+					if root == nil {
+						continue
+					}
 					s := &g.Shape{Root: root, TagKey: "json"}
 					cr := &c05cRun{m: m, idx: idx >> 9, shape: s}
-					out, d := cr.call(yaml, doc, fmt.Sprintf("class=valid;tag-key=%s;doc-key=%s;where=%s", k, dk, where))
+					out, d := cr.call(yaml, doc, fmt.Sprintf("class=valid;struct-key=%s;doc-key=%s;where=%s", k, v.dk, pl.name))
 					m.Case(d, true)
 					switch {
 					case out.pv != nil:
 						m.Violate(c05cPanicSig(out), d, "panic: %v", out.pv)
 					case out.err != nil:
-						m.Violate("C05:conf-key-variant:"+mode+":errorness"+c05cWhere(where), d, "tag key %q, document key %q (%s, %s): %v", k, dk, mode, where, out.err)
+						m.Violate("C05:conf-key-variant:"+v.mode+":errorness"+c05cWhere(pl.name), d, "struct key %q, document key %q (%s, %s): %v", k, v.dk, v.mode, pl.name, out.err)
 					default:
 						if fd := g.Audit(s, out.res, doc, g.AuditOpt{Canon: c05cCanon}); fd != nil {
-							m.Violate("C05:conf-key-variant:"+mode+":value"+c05cWhere(where), d, "tag key %q, document key %q: %s", k, dk, fd.Detail)
+							m.Violate("C05:conf-key-variant:"+v.mode+":value"+c05cWhere(pl.name), d, "struct key %q, document key %q (%s): %s", k, v.dk, pl.name, fd.Detail)
 						}
 					}
-					m.Count("key-table."+mode, 1)
+					m.Count("key-table."+v.mode, 1)
+					m.Count("key-table.place."+pl.name, 1)
 				}
 			}
 		}
 	}
-	m.Sample(map[string]any{"keys": keys, "probes": idx})
+	m.Count("key-table.keys", int64(len(keys)))
+	m.Sample(map[string]any{"keys": len(keys), "probes": idx, "examples": []string{"Zone<-zone", "maxZone<-max_zone", "zkZosts<-zk_zosts", "HTTPPort<-hTTPPort", "a0Z9z<-a0_z9z"}})
 }
